@@ -79,14 +79,14 @@ class Block1014WriteLoop:
         return self.G['b'].n - g['c']
 
 
-@unit('Block1014.__init__/establishes-inv', props=['C04', 'C03'], functions=[M + 'Block1014.__init__'])
+@unit('Block1014.__init__/establishes-inv', props=['C04', 'C03', 'C06'], functions=[M + 'Block1014.__init__'])
 def u_blk_init(E):
     f = E.new_file(seq_lit('bytes', b''), 0)
     b = E.instantiate(E.program.classes[M + 'Block1014'], [f], {})
     check_blocker_inv(E, 'Block1014.__init__', b, f, seq_lit('bytes', b''))
 
 
-@unit('Block1014.write/preserves-inv', props=['C04', 'C03'], functions=[M + 'Block1014.write'])
+@unit('Block1014.write/preserves-inv', props=['C04', 'C03', 'C06'], functions=[M + 'Block1014.write'])
 def u_blk_write(E):
     """for every reachable state (any data written so far, `trailer pending` r=0 as well as r=1012) and every next write"""
     data = E.fresh_seq('bytes', 'data')
@@ -148,12 +148,12 @@ def finalise_unit(E, how):
     E.prove('Block1014.%s/ready-for-next-block' % how, E.as_int(rv) == 1012, 'I')
 
 
-@unit('Block1014.finalise/post', props=['C04', 'C03'], functions=[M + 'Block1014.finalise'])
+@unit('Block1014.finalise/post', props=['C04', 'C03', 'C06'], functions=[M + 'Block1014.finalise'])
 def u_blk_finalise(E):
     finalise_unit(E, 'finalise')
 
 
-@unit('Block1014.seek/post', props=['C04', 'C03', 'C11'], functions=[M + 'Block1014.seek', M + 'Block1014.finalise'])
+@unit('Block1014.seek/post', props=['C04', 'C03', 'C11', 'C06'], functions=[M + 'Block1014.seek', M + 'Block1014.finalise'])
 def u_blk_seek(E):
     finalise_unit(E, 'seek')
 
@@ -320,7 +320,7 @@ def unblock_read_unit(E, sized):
     E.prove_value_eq(tag + '/frame/file-content-untouched', E.getf(f, 'content'), C, 'I', 'frame')
 
 
-@unit('Unblock1014.read(k)/post', props=['C05', 'C03', 'C09'], functions=[M + 'Unblock1014.read'])
+@unit('Unblock1014.read(k)/post', props=['C05', 'C03', 'C09', 'C06'], functions=[M + 'Unblock1014.read'])
 def u_unb_read_k(E):
     unblock_read_unit(E, True)
 
@@ -330,7 +330,7 @@ def u_unb_read_all(E):
     unblock_read_unit(E, False)
 
 
-@unit('Unblock1014.__init__/establishes-inv', props=['C05', 'C03'], functions=[M + 'Unblock1014.__init__'])
+@unit('Unblock1014.__init__/establishes-inv', props=['C05', 'C03', 'C06'], functions=[M + 'Unblock1014.__init__'])
 def u_unb_init(E):
     C = E.fresh_seq('bytes', 'C')
     f = E.new_file(C, 0)
